@@ -175,7 +175,8 @@ def replay_batch(cases, leaf_bits, nsig, want_tb=True, vals=None):
     if not live:
         return mism
     nv = 1 << (leaf_bits * nsig)
-    valuations = list(vals) if vals is not None else list(range(1, nv + 1))
+    sampled = isinstance(live[0][4], dict)
+    valuations = sorted(live[0][4]) if sampled else (list(vals) if vals is not None else list(range(1, nv + 1)))
     try:
         with warnings.catch_warnings():
             warnings.simplefilter("ignore")
@@ -197,7 +198,7 @@ def replay_batch(cases, leaf_bits, nsig, want_tb=True, vals=None):
             for (i, w, s), sig in leaves.sigs.items():
                 ctx.set(sig, norm(raw_of(k, i, leaf_bits), w, s))
             for idx, prog, expr, out, ev in live:
-                exp = ev[pos] if vals is not None else ev[k - 1]
+                exp = ev[k] if sampled else (ev[pos] if vals is not None else ev[k - 1])
                 if idx not in bad_ckt:
                     got = ctx.get(out)
                     if got != exp:
@@ -229,7 +230,9 @@ def state_to_case(st):
     if not prog:
         return None
     top = st["stack"][-1]
-    return (list(prog), top["sh"]["w"], top["sh"]["s"], list(top["v"]))
+    v = top["v"]
+    # value table: a sequence over all valuations 1..NV, or (sampled valuations) a function valuation -> value
+    return (list(prog), top["sh"]["w"], top["sh"]["s"], dict(v) if isinstance(v, dict) else list(v))
 
 
 def split_dump(path, nparts):
